@@ -484,8 +484,41 @@ pub fn run(ctx: &Ctx, acc: &mut Acc) {
             }
         }
     }
+    // one size further with uniform kinds (all integers / all blocks / all block-less objects) at
+    // the same window offsets: move graphs of nmax+1 variables (a cycle through the register/spill
+    // boundary with a fan-out and a chain hanging off it needs five) -- seed C11-r14
+    let n = nmax + 1;
+    'uniform: for isa in 0..3usize {
+        let ws = windows(isa, quick);
+        for kind in kinds_all {
+            for m in 0..=n {
+                let nm = (n as u64).pow(m as u32);
+                for mcode in 0..nm {
+                    for &w in &ws {
+                        idx += 1;
+                        if idx % ctx.nshards as u64 != ctx.shard as u64 {
+                            continue;
+                        }
+                        if !ctx.time_left() {
+                            complete = false;
+                            break 'uniform;
+                        }
+                        let mut map = Vec::new();
+                        let mut y = mcode;
+                        for _ in 0..m {
+                            map.push((y % n as u64) as usize);
+                            y /= n as u64;
+                        }
+                        let c = Config11 { isa, window: w, kinds: vec![kind; n], map, share: vec![None; n] };
+                        acc.count("uniform_kind_maps_one_size_further");
+                        one(acc, &c, &mut stats);
+                    }
+                }
+            }
+        }
+    }
     acc.exhaustive = Some(complete);
-    acc.notes.push(format!("enumerated all maps new(m<={nmax}) -> old(n<={nmax}) x 3^n kind assignments x window offsets x 3 backends{}", if complete { "" } else { " (time budget ended the enumeration early)" }));
+    acc.notes.push(format!("enumerated all maps new(m<={nmax}) -> old(n<={nmax}) x 3^n kind assignments x window offsets x 3 backends, and all maps with m,n<={} of uniform kind at the same window offsets{}", nmax + 1, if complete { "" } else { " (time budget ended the enumeration early)" }));
     // random larger maps with shared blocks
     let mut rng = Rng::new(ctx.case_seed(7));
     let extra = if quick { 300 } else { 20_000 };
